@@ -181,7 +181,8 @@ impl StringGenerator {
             crate::IceMode::Ice => {
                 if let Some(idx) = back_idx {
                     if idx < 8 {
-                        is_blink = false | attr.is_blinking();
+                        // in an ice colour file SGR 5 is the bright background bit
+                        is_blink = false;
                     } else if idx > 7 && idx < 16 {
                         is_blink = true;
                         back_idx = Some(idx - 8);
